@@ -18,6 +18,11 @@ mod corr_decision;
 mod corr_reduce;
 mod corr_lineage;
 mod corr_deadline;
+mod front;
+mod raw_api;
+
+#[global_allocator]
+static ALLOC: front::Counting = front::Counting;
 mod e2e;
 mod pngparse;
 
@@ -50,6 +55,11 @@ fn main() {
         std::process::exit(2);
     }
     let cmd = args[1].clone();
+    if cmd == "c05-worker" {
+        std::panic::set_hook(Box::new(|_| {}));
+        front::worker_main();
+        return;
+    }
     let mut seed = 1u64;
     let mut n = 100usize;
     let mut out: Box<dyn Write> = Box::new(std::io::BufWriter::new(std::io::stdout()));
@@ -109,6 +119,10 @@ fn main() {
         "corr-reduce" => corr_reduce::corr(&mut ctx),
         "corr-lineage" => corr_lineage::corr(&mut ctx),
         "corr-deadline" => corr_deadline::corr(&mut ctx),
+        "oracle-c05" => front::oracle(&mut ctx),
+        "corr-front" => front::corr(&mut ctx),
+        "corr-raw" => raw_api::corr(&mut ctx),
+        "oracle-c11" => raw_api::oracle(&mut ctx),
         "oracle-files" => corr_decision::oracle_files(&mut ctx),
         _ => {
             eprintln!("unknown stream {cmd}");
